@@ -33,10 +33,11 @@ HARNESSES = {
     ],
     "C19": [
         H("c19_distance_not_nan", "lib", "C19.K.distance.not_nan", bounded="one infoset of 2 actions / empty player; entries any f64 in [0,1]; p in {1, 2} (powf modelled exactly)"),
-        H("c19_distance_symmetric", "lib", "C19.K.distance.symmetric", bounded="as above"),
+        H("c19_distance_symmetric_grid", "lib", "C19.K.distance.symmetric", bounded="one infoset of 2 actions; entries on the grid {0, 1/4, 1/2, 3/4, 1}; p in {1, 2}"),
+        H("c19_distance_symmetric", "lib", "C19.K.distance.symmetric", bounded="as above, entries any f64 in [0,1]", tier="thorough", timeout=3600),
         H("c19_distance_zero_iff_equal", "lib", "C19.K.distance.zero_iff_equal", bounded="as above"),
         H("c19_distance_range_upper", "lib", "C19.K.distance.range_upper", bounded="as above"),
-        H("c19_distance_range_residual", "lib", "C19.K.distance.range_residual", bounded="as above"),
+        H("c19_distance_range_residual", "lib", "C19.K.distance.range_residual", bounded="one infoset of 2 actions; entries on the grid {0, 1/4, 1/2, 3/4, 1}; p in {1, 2}"),
         H("c19_distance_panics_other_game", "lib", "C19.K.distance.panics", bounded="as above"),
         H("c19_distance_panics_nonpositive_p", "lib", "C19.K.distance.panics", bounded="as above; p any f64 with !(p > 0)"),
     ],
@@ -53,13 +54,13 @@ HARNESSES = {
         H("c05_avg_strat_distribution_n3", "data", "C05.K.avg_strat.distribution", bounded=B3, tier="thorough", timeout=1800),
         H("c05_regret_infoset_new", "data", "C05.K.RegretInfoset_new.uniform", bounded="1..3 actions"),
         H("c08_regret_match_positive_n1", "data", "C05.K.regret_match.distribution", bounded=B3),
-        H("c08_regret_match_positive_n2", "data", "C05.K.regret_match.distribution", bounded=B3),
+        H("c08_regret_match_positive_n2", "data", "C05.K.regret_match.distribution", bounded=B3, tier="thorough", timeout=1800),
         H("c08_regret_match_positive_n3", "data", "C05.K.regret_match.distribution", bounded=B3, tier="thorough", timeout=1800),
         H("c08_regret_match_fallbacks_n1", "data", "C05.K.regret_match.distribution", bounded=B3),
-        H("c08_regret_match_fallbacks_n2", "data", "C05.K.regret_match.distribution", bounded=B3),
+        H("c08_regret_match_fallbacks_n2", "data", "C05.K.regret_match.distribution", bounded=B3, tier="thorough", timeout=1800),
         H("c08_regret_match_fallbacks_n3", "data", "C05.K.regret_match.distribution", bounded=B3, tier="thorough", timeout=1800),
         H("c05_regret_match_softmax_n1", "data", "C05.K.regret_match.softmax", bounded=B3 + "; exp replaced by a sound interval model"),
-        H("c05_regret_match_softmax_n2", "data", "C05.K.regret_match.softmax", bounded=B3 + "; exp replaced by a sound interval model"),
+        H("c05_regret_match_softmax_n2", "data", "C05.K.regret_match.softmax", bounded=B3 + "; exp replaced by a sound interval model", tier="thorough", timeout=1800),
         H("c05_regret_match_softmax_n3", "data", "C05.K.regret_match.softmax", bounded=B3 + "; exp replaced by a sound interval model", tier="thorough", timeout=1800),
         H("c02_cum_regret_formula_n1", "data", "C05.K.cum_regret.finite_nonneg", bounded=B3),
         H("c02_cum_regret_formula_n2", "data", "C05.K.cum_regret.finite_nonneg", bounded=B3),
@@ -71,16 +72,16 @@ HARNESSES = {
         H("c08_new_rejects", "data", "C08.K.new.rejects", complete=True),
         H("c08_gen_discount_special", "data", "C08.K.gen_discount.special", complete=True),
         H("c08_regret_match_positive_n1", "data", "C08.K.regret_match.positive", bounded=B3),
-        H("c08_regret_match_positive_n2", "data", "C08.K.regret_match.positive", bounded=B3),
+        H("c08_regret_match_positive_n2", "data", "C08.K.regret_match.positive", bounded=B3, tier="thorough", timeout=1800),
         H("c08_regret_match_positive_n3", "data", "C08.K.regret_match.positive", bounded=B3, tier="thorough", timeout=1800),
         H("c08_regret_match_fallbacks_n1", "data", "C08.K.regret_match.fallbacks", bounded=B3),
-        H("c08_regret_match_fallbacks_n2", "data", "C08.K.regret_match.fallbacks", bounded=B3),
+        H("c08_regret_match_fallbacks_n2", "data", "C08.K.regret_match.fallbacks", bounded=B3, tier="thorough", timeout=1800),
         H("c08_regret_match_fallbacks_n3", "data", "C08.K.regret_match.fallbacks", bounded=B3, tier="thorough", timeout=1800),
-        H("c08_discount_cum_regret_n1", "data", "C08.K.discount_cum_regret", bounded=B3),
-        H("c08_discount_cum_regret_n2", "data", "C08.K.discount_cum_regret", bounded=B3),
+        H("c08_discount_cum_regret_n1", "data", "C08.K.discount_cum_regret", bounded=B3, tier="thorough", timeout=1800),
+        H("c08_discount_cum_regret_n2", "data", "C08.K.discount_cum_regret", bounded=B3, tier="thorough", timeout=1800),
         H("c08_discount_cum_regret_n3", "data", "C08.K.discount_cum_regret", bounded=B3, tier="thorough", timeout=1800),
-        H("c08_discount_average_strat_n1", "data", "C08.K.discount_average_strat", bounded=B3),
-        H("c08_discount_average_strat_n2", "data", "C08.K.discount_average_strat", bounded=B3),
+        H("c08_discount_average_strat_n1", "data", "C08.K.discount_average_strat", bounded=B3, tier="thorough", timeout=1800),
+        H("c08_discount_average_strat_n2", "data", "C08.K.discount_average_strat", bounded=B3, tier="thorough", timeout=1800),
         H("c08_discount_average_strat_n3", "data", "C08.K.discount_average_strat", bounded=B3, tier="thorough", timeout=1800),
     ],
     "C10": [
